@@ -3,6 +3,7 @@ NEXT MNext
 CONSTANTS
   MaxStmts = 1
   MaxDepth = 1
+  Slice = "all"
   UseY = TRUE
   Cats = {"assign-v", "unpack", "aug", "expr", "assert", "mut", "return", "save"}
 INVARIANT Inhabited
